@@ -766,6 +766,10 @@ class Normaliser:
         for name, defs in assigns.items():
             if name in params:
                 continue
+            none_defs = [d for d in defs if isinstance(d.value, ast.Constant) and d.value.value is None]
+            defs = [d for d in defs if d not in none_defs]
+            if not defs:
+                continue
             kinds = {d.value.func.id if isinstance(d.value, ast.Call) and isinstance(d.value.func, ast.Name) else None
                      for d in defs}
             if len(kinds) != 1 or None in kinds or next(iter(kinds)) not in recs:
@@ -776,6 +780,7 @@ class Normaliser:
             is_nt = any(ast.unparse(b).split('.')[-1] == 'NamedTuple' for b in cdef.bases)
             ok = True
             uses = []
+            none_tests: list[ast.Compare] = []
             method_names = {m.name for m in cdef.body if isinstance(m, ast.FunctionDef) and m.name not in props}
             pending_methods = False
             for n in ast.walk(fn):
@@ -788,7 +793,12 @@ class Normaliser:
                         pending_methods = True
                         continue
                     if isinstance(n.ctx, ast.Store) and any(n is (d.targets[0] if isinstance(d, ast.Assign) else d.target)
-                                                            for d in defs):
+                                                            for d in defs + none_defs):
+                        continue
+                    if none_defs and isinstance(par, ast.Compare) and par.left is n and len(par.ops) == 1 \
+                            and isinstance(par.ops[0], (ast.Is, ast.IsNot)) \
+                            and isinstance(par.comparators[0], ast.Constant) and par.comparators[0].value is None:
+                        none_tests.append(par)
                         continue
                     if isinstance(par, ast.Attribute) and par.value is n and (
                             (par.attr in fnames and (isinstance(par.ctx, ast.Load) or not is_nt))
@@ -840,13 +850,36 @@ class Normaliser:
             if not ok:
                 continue
             loc = {f: f'{name}__{f}' for f in fnames}
+            flag = f'{name}__set'
             taken = {x.id for x in ast.walk(fn) if isinstance(x, ast.Name)}
-            if any(v in taken for v in loc.values()):
+            if any(v in taken for v in loc.values()) or (none_defs and flag in taken):
                 continue
+            if none_defs:
+                # an optional record: one more local says whether it is there
+                for d in none_defs:
+                    new0 = ast.copy_location(ast.Assign(targets=[ast.Name(id=flag, ctx=ast.Store())],
+                                                        value=ast.Constant(value=False)), d)
+                    for blk in self._blocks(fn):
+                        for i, st in enumerate(blk):
+                            if st is d:
+                                blk[i:i + 1] = [new0]
+                                break
+                for t_ in none_tests:
+                    present = ast.Name(id=flag, ctx=ast.Load())
+                    repl = present if isinstance(t_.ops[0], ast.IsNot) else ast.UnaryOp(op=ast.Not(), operand=present)
+                    par = parent_of.get(id(t_))
+                    for fld, val in ast.iter_fields(par):
+                        if val is t_:
+                            setattr(par, fld, ast.copy_location(repl, t_))
+                        elif isinstance(val, list) and any(x is t_ for x in val):
+                            val[[j for j, x in enumerate(val) if x is t_][0]] = ast.copy_location(repl, t_)
             # the parent links must be current for the replacement
             for d, order in plans:
                 new = [ast.copy_location(ast.Assign(targets=[ast.Name(id=loc[f], ctx=ast.Store())], value=v), d)
                        for f, v in order]
+                if none_defs:
+                    new.append(ast.copy_location(ast.Assign(targets=[ast.Name(id=flag, ctx=ast.Store())],
+                                                            value=ast.Constant(value=True)), d))
                 for blk in self._blocks(fn):
                     for i, st in enumerate(blk):
                         if st is d:
